@@ -61,6 +61,11 @@ def threshold(t, rows):
 
 def run(ctx):
     model = ctx.model
+    from .. import roles as _rm3
+    shared.r_nocfg(ctx, "R05.nocfg", _rm3.get(model).close_op,
+                   "under the other setting the deleted mailbox keeps its object and its "
+                   "subscribers, who then receive the next incarnation's messages")
+    shared.r_wire(ctx, "R05.wire")
     shared.r_collation(ctx, "R05.exact", ('mailbox_sides', 'nameplate_sides'),
                        'a third side whose string differs only in case is taken for one of the two')
     shared.r_durable(ctx, "R05.durable", ("chan",),
